@@ -250,6 +250,8 @@ def build(spec, made=None):
     if tag == "masked":
         a = B(spec[1])
         rng = np.random.RandomState(spec[2])
+        if len(spec) > 3:     # optional 4th field: {"fill": number, "hard": bool}
+            return keep(np.ma.MaskedArray(a, mask=rng.rand(*a.shape) > 0.5, fill_value=spec[3].get("fill"), hard_mask=bool(spec[3].get("hard"))))
         return keep(np.ma.MaskedArray(a, mask=rng.rand(*a.shape) > 0.5))
     if tag == "matrix":
         return keep(np.matrix(B(spec[1])))
